@@ -21,6 +21,14 @@ ANYF = ['x']
 QF = ['q']            # array of sub-documents (path traversal through arrays)
 
 INTS = [-2, -1, 0, 1, 2, 3, 5]
+# the wide pool: 32- and 64-bit integers at the int32 / int64 boundaries and around 2**53, the
+# point from which on a double no longer holds every integer (snowflake-style ids, nanosecond
+# timestamps); all of them are BSON int64 values
+WIDE_INTS = [2 ** 31 - 1, 2 ** 31, -2 ** 31, -2 ** 31 - 1, 2 ** 32, 2 ** 32 + 1, 10 ** 9 + 7,
+             2 ** 53 - 1, 2 ** 53, 2 ** 53 + 1, -(2 ** 53 + 1), 2 ** 53 + 2, 2 ** 53 + 3,
+             2 ** 54 + 2, 2 ** 60 + 1, 1541815603606036481, 1700000000123456789,
+             10 ** 18 + 3, 2 ** 62 + 1, 2 ** 63 - 1, -2 ** 63, -2 ** 63 + 1]
+WIDE_BITS = [31, 32, 33, 40, 52, 53, 54, 54, 55, 57, 60, 62, 63, 63]
 FLOATS = [-1.5, -0.5, 0.0, 0.25, 0.5, 1.0, 1.5, 2.0, 2.5]
 STRS = ['', 'a', 'b', 'ab', 'Ab', 'aB', 'ba', 'a,b', 'x y', 'B']
 DATES = [_dt.datetime(2020, 1, 1), _dt.datetime(2020, 2, 29, 13, 14, 15, 123000),
@@ -37,15 +45,27 @@ UNKNOWN = ['$type', '$toDouble', '$toBool', '$ltrim', '$toDate', '$foo', '$setFi
 
 
 class ExprGen(object):
-    def __init__(self, rng, max_depth=5, anomaly=0.02):
+    def __init__(self, rng, max_depth=5, anomaly=0.02, wide=0.0):
         self.r = rng
         self.max_depth = max_depth
         self.anomaly = anomaly
+        self.wide = wide        # share of the numbers that come from the wide pool
         self.ops = collections.Counter()
         self.vars = {}          # variable name -> static type
 
     # -- documents ------------------------------------------------------------------------------
+    def wide_int(self):
+        """an int64 of 31 to 63 bits: a boundary value or a random one of a chosen bit length"""
+        r = self.r
+        if r.random() < 0.45:
+            return r.choice(WIDE_INTS)
+        k = r.choice(WIDE_BITS)
+        n = r.getrandbits(k - 1) | (1 << (k - 2)) | (1 if r.random() < 0.6 else 0)
+        return -n if r.random() < 0.3 else n
+
     def num(self):
+        if self.wide and self.r.random() < self.wide:
+            return self.wide_int()
         return self.r.choice(INTS) if self.r.random() < 0.6 else self.r.choice(FLOATS)
 
     def numarr(self):
@@ -542,12 +562,12 @@ class ExprGen(object):
         del spec[r.choice(['if', 'then', 'else'])]
         return self.op('$cond', spec)
 
-    def top(self, kind=None):
+    def top(self, kind=None, depths=(1, 2, 2, 3, 3, 4, 5)):
         """a whole expression; never a bare literal number / bool (inclusion flags of $project)"""
         self.vars = {}
         t = kind or self.r.choice(['num', 'num', 'num', 'str', 'str', 'bool', 'bool', 'bool', 'arr',
                                    'arr', 'sarr', 'date', 'doc', 'any'])
-        depth = self.r.choice([1, 2, 2, 3, 3, 4, 5])
+        depth = self.r.choice(depths)
         for _ in range(20):
             e = self.expr(t, depth)
             if isinstance(e, (dict, str)) and e != {} and e != '' and depth_of(e) <= 5:
